@@ -73,6 +73,9 @@ class SuperObj:
         self.cls, self.obj = cls, obj
 
 
+ATOM_NONEMPTY = z3.Function('atom_nonempty', z3.IntSort(), z3.BoolSort())
+
+
 class Obligation:
 
     def __init__(self, name, goal, pc, kind, path, info=None):
@@ -1167,6 +1170,10 @@ class Interp:
             return False
         if isinstance(a, Struct) or isinstance(b, Struct):
             if not (isinstance(a, Struct) and isinstance(b, Struct)) or a.tag != b.tag or len(a.fields) != len(b.fields):
+                # differently BUILT strings: unequal as terms, which does not show their values differ
+                if not self.spec_mode and (isinstance(a, (str, Struct)) and isinstance(b, (str, Struct))):
+                    raise Unsupported('comparison of differently built strings')
+                self.struct_mismatch = True
                 return False
             return self.seq_eq(a.fields, b.fields)
         if isinstance(a, CharStr) or isinstance(b, CharStr):
@@ -1375,8 +1382,8 @@ class Interp:
                 return v.t != 0
             if v.k == 'str':
                 return z3.Length(v.t) > 0
-            if v.k == 'atom':
-                raise Unsupported('truth of atom')
+            if v.k == 'atom':       # an atom stands for a string: falsy iff it is the empty one
+                return ATOM_NONEMPTY(v.t)
         if v is None:
             return False
         if isinstance(v, (int, float, str, tuple, frozenset)):
